@@ -26,6 +26,7 @@ EXPLANATION = (
   " (STATE-alias / STATE-global) no function of the anchored modules mutates a module- or class-level container, rebinds module / class state or mutates a mutable default argument, so a result never depends on earlier calls;"
   " (PAIR-compute) every uncomputed value copied onto the ISD element is registered, with the same property, in the set handed to _compute_styles;"
   ' (ORD-postorder) the recursive pruning of empty spans decides whether a child is empty only after it has unconditionally recursed into that child, so a span whose content is pruned does not survive childless;'
+  ' (ORD-style) animation, specified, inherited and initial values are applied and the styles computed before display=none prunes the element and before the children are visited (a display value can come from any of these sources);'
 )
 RULE_TEXT = "per length-bearing property, per mutator call on ISD-owned values, per return site, per document parameter"
 UNDECIDED = ["white-space collapsing results", "emptiness pruning as semantics (no empty text node, no childless span)",
@@ -418,4 +419,5 @@ def run(ctx):
   isdrules.check_compute_order(ctx)
   npo = sum(trav.check_postorder_emptiness(ctx, g) for g in ctx.ix.funcs_in("ttconv.isd"))
   ctx.floor("ORD-postorder", "recursive pruning steps that test a child's emptiness", npo, 1)
+  isdrules.check_style_order(ctx)
   common.check_history_independence(ctx, common.CORE)
